@@ -81,6 +81,7 @@ type c16Env struct {
 	failOp  string // storage op kind to fail once ("Store" / "Delete"), for the current call
 	e2eOK   int
 	e2eBad  []string
+	hung    bool
 	seq     int
 }
 
@@ -298,10 +299,11 @@ func (e *c16Env) call(h *c16Hist, st c16Step) error {
 	case err := <-done:
 		return err
 	case <-time.After(20 * time.Second):
-		// a solver call that never returns: nothing sensible can follow in this process
+		// a solver call that never returns (it holds the solvers mutex): this history gets an
+		// observation that satisfies nothing, and no further history is run in this process
 		fmt.Fprintf(os.Stderr, "solver call hung: %+v in history %+v\n", st, h.in)
-		os.Exit(4)
-		return nil
+		e.hung = true
+		return errors.New("solver call did not return within 20 s")
 	}
 }
 
@@ -462,14 +464,23 @@ func (e *c16Env) runHistory(w *emit.Writer, in c16In, desc map[string]any, r *ra
 				}
 			}(i)
 		}
-		wg.Wait()
-		var anyErr error
-		for _, x := range errs {
-			if x != nil {
-				anyErr = x
+		waited := make(chan struct{})
+		go func() { wg.Wait(); close(waited) }()
+		var final c16Snap
+		select {
+		case <-waited:
+			var anyErr error
+			for _, x := range errs {
+				if x != nil {
+					anyErr = x
+				}
 			}
+			final = e.observe(h, anyErr)
+		case <-time.After(30 * time.Second):
+			fmt.Fprintf(os.Stderr, "concurrent orders hung in history %+v\n", h.in)
+			e.hung = true
+			final = c16Snap{err: true, errStr: "solver call hung", solvers: []certmagic.VerifSolverInfo{{Address: "hung", Count: -999}}}
 		}
-		final := e.observe(h, anyErr)
 		for k, st := range in.Steps {
 			enc.Bool(st.Clean).Int(st.Order).Bool(false).Bool(false).Bool(false).Int(0)
 			if k == len(in.Steps)-1 {
@@ -481,8 +492,16 @@ func (e *c16Env) runHistory(w *emit.Writer, in c16In, desc map[string]any, r *ra
 	} else {
 		pending := map[int]bool{}
 		for k, st := range in.Steps {
-			err := e.call(h, st)
-			snap := e.observe(h, err)
+			var err error
+			if !e.hung {
+				err = e.call(h, st)
+			}
+			var snap c16Snap
+			if e.hung {
+				snap = c16Snap{err: true, errStr: "solver call hung", solvers: []certmagic.VerifSolverInfo{{Address: "hung", Count: -999}}}
+			} else {
+				snap = e.observe(h, err)
+			}
 			enc.Bool(st.Clean).Int(st.Order).Bool(st.Cancel).Bool(st.Storage).Bool(st.Provider).Int(bindOf(st, snap))
 			obsList = append(obsList, encSnap(enc, snap, h))
 			pending[st.Order] = !st.Clean
@@ -587,7 +606,12 @@ func randomInterleaving(r *rand.Rand, n int) []c16Step {
 	return cur
 }
 
-func runC16(tier string, seed int64, outdir string, replay string) error {
+func runC16(tier string, seed int64, outdir string, replay string) (retErr error) {
+	defer func() {
+		if retErr != nil && retErr.Error() == "hung" {
+			retErr = nil
+		}
+	}()
 	w := emit.NewWriter(outdir, "C16", tier, seed)
 	defer w.Close()
 	env := newC16Env()
@@ -617,7 +641,25 @@ func runC16(tier string, seed int64, outdir string, replay string) error {
 		}
 		return env.runHistory(w, in, d, r, 0)
 	}
-	run := func(in c16In, desc map[string]any) error { return env.runHistory(w, in, desc, r, 5) }
+	errHung := errors.New("hung")
+	run := func(in c16In, desc map[string]any) error {
+		if env.hung {
+			return errHung
+		}
+		if err := env.runHistory(w, in, desc, r, 5); err != nil {
+			return err
+		}
+		if env.hung {
+			return errHung
+		}
+		return nil
+	}
+	defer func() {
+		if env.hung {
+			w.Close()
+			os.Exit(0) // a goroutine is stuck inside the solver: do not wait for deferred stops
+		}
+	}()
 	O := func(kind string, addr int, id string) c16Order { return c16Order{Kind: kind, Addr: addr, Ident: id} }
 
 	// ---- corpus: witnesses of the fixed findings
@@ -639,7 +681,7 @@ func runC16(tier string, seed int64, outdir string, replay string) error {
 		Steps: []c16Step{{Order: 0}, {Order: 1, Storage: true}, {Clean: true, Order: 1}, {Clean: true, Order: 0}}}, map[string]any{"class": "present-store-fails", "shape": "corpus"}); err != nil {
 		return err
 	}
-	if err := run(c16In{Honour: true, Addrs: []string{"free"}, Orders: []c16Order{O("tlsalpn", 0, "a"), O("http", 0, "b")},
+	if err := run(c16In{Honour: true, Addrs: []string{"free"}, Orders: []c16Order{O("tlsalpn", 0, "a"), O("tlsalpn", 0, "b")},
 		Steps: []c16Step{{Order: 0}, {Order: 1, Cancel: true}, {Clean: true, Order: 1, Cancel: true}, {Clean: true, Order: 0}}}, map[string]any{"class": "present-store-fails", "shape": "corpus"}); err != nil {
 		return err
 	}
@@ -807,6 +849,9 @@ func runC16(tier string, seed int64, outdir string, replay string) error {
 		}
 		for i := 0; i < n; i++ {
 			in.Steps = append(in.Steps, c16Step{Clean: true, Order: i})
+		}
+		if env.hung {
+			return errHung
 		}
 		if err := env.runHistory(w, in, map[string]any{"shape": "concurrent"}, r, 0); err != nil {
 			return err
